@@ -117,6 +117,15 @@ CHECKS = {
              "receiver's projection and identity map never change, that in-place calls are rejected, that copy-on-write calls return a distinct instance, and -- the twin "
              "bisimulation -- that result and outcome equal the same Step that governs the non-frozen scenarios.",
         note=TB, technique="TLA+ spec + TLC model checking; spec->code replay of every (state, action) on frozen classes; TLC-judged", ref="3 C07"),
+    "C08": dict(
+        text="CowHeap.tla models the copy/alias rules at heap level (cells with identity and content version; roots = class default, retained constructor argument, live "
+             "instances; construct, copy-on-write/deepcopy, reset, in-place poke; do_not_copy attribute carried by identity) and TLC checks NoSharing, PokeIsolated and "
+             "DefaultsStable over all operation sequences, with four 'share instead of copy' deviations each producing a counterexample. DefaultsOps.tla states the nearest-"
+             "default-along-the-MRO rule. Real histories (construction with retained arguments, pokes at depth, reset_<attr>, reset, del, derivations) over a hierarchy that "
+             "declares defaults in every documented way (mutable literal, Attr(default=), Attr(default_factory=), dataclasses.field, nested instance, spec-subclass re-default, "
+             "plain-subclass override) record every root before/after each step; TLC judges defaults/arguments/peers unchanged, no two roots sharing a mutable object, and "
+             "reset/del == nearest default. The per-call peer/default clauses are also judged on the (state, action) tables of four core scenarios.",
+        note=TB, technique="TLA+ heap/alias model (TLC) + declarative default rule; TLC-judged real histories with identity tokens", ref="3 C08"),
 }
 
 PENDING = "check not built yet in this round (see DESIGN.md section 3 for the planned TLA+ module)"
